@@ -84,6 +84,19 @@ func (e *Engine) docOf(st *State, s *SliceV) (*JNode, bool) {
 	return nil, false
 }
 
+// plainSymbolic reports whether s is plain bytes (not a document) that are not fully concrete: J2 may then be unable
+// to parse them and the caller should fall back to the real byte-level code.
+func (e *Engine) plainSymbolic(st *State, s *SliceV) bool {
+	if s.IsNil() {
+		return false
+	}
+	if _, isDoc := e.get(st, s.Obj).(*JDocV); isDoc {
+		return false
+	}
+	_, conc := e.sliceToStr(st, s).Concrete()
+	return !conc
+}
+
 // docOfStr: a string may carry a document too.
 func (e *Engine) docOfStr(st *State, s *StrV) (*JNode, bool) {
 	if s.Doc != nil {
